@@ -280,7 +280,41 @@ func c15Order(p *Prog, c *Check, sp syncerSpec) {
 		reads = append(reads, callsTo(fn, nm)...)
 	}
 	if len(reads) == 0 {
-		c.Undecided("%s: no sync position read found in %s", rule, shortFn(fn))
+		// where does the start of the synced range come from? every call its value is built from must be a
+		// position read made after the reorg check succeeded (a value handed back by the reorg check itself
+		// was read before any rollback and is stale after one)
+		var startT *Term
+		for _, ci := range callsTo(fn, "medley.GetSyncRanges") {
+			startT = fi.T(ci.Common().Args[0])
+		}
+		if startT == nil {
+			for _, ci := range callsTo(fn, "syncRange") {
+				startT = fi.T(ci.Common().Args[2])
+			}
+		}
+		if startT == nil {
+			c.Undecided("%s: no sync position read found in %s", rule, shortFn(fn))
+			return
+		}
+		var srcs []*ssa.Call
+		startT.walk(func(t *Term) {
+			if t.K == TCall {
+				if call, ok := t.Val.(*ssa.Call); ok && call.Parent() == fn {
+					srcs = append(srcs, call)
+				}
+			}
+		})
+		if len(srcs) == 0 {
+			c.Undecided("%s: no sync position read found in %s", rule, shortFn(fn))
+			return
+		}
+		for i, sc := range srcs {
+			key := fmt.Sprintf("Sync:start-source#%d", i+1)
+			ok := sc != rc && instrDominates(rc, sc) && fi.mustPassSuccess(rc, sc.Block())
+			c.Result(ok, rule, key, p.siteOf(sc), shortFn(fn), "source of the range start: "+shortCallee(callName(sc)), "the start of the synced range is not (only) built from a position read after a successful reorg check: after a rollback it is stale and the rolled-back blocks are never refetched", "read after handlePotentialReorg(...) == nil")
+		}
+		srs := callsTo(fn, "syncRange")
+		c.Floor(rule+".syncRange", len(srs), 1)
 		return
 	}
 	for i, rd := range reads {
